@@ -20,7 +20,7 @@ def suite_ok(wt):
 
 def main():
     only = sys.argv[1:]
-    for d in sorted(glob.glob("/tmp/wt/C*[tuvw].out/*/")):
+    for d in sorted(glob.glob("/tmp/wt/C*[tuvwx].out/*/")):
         prop = d.split("/")[3].split(".")[0]      # C05t
         n = d.rstrip("/").split("/")[-1]
         sid = f"{prop}-{n}"
